@@ -7,6 +7,27 @@ props = [json.loads(l) for l in open(os.path.join(HERE, 'properties.jsonl'))]
 E1 = "exhaustive bounded input enumeration (deviation-bounded + complete products of small alphabets), every case executed on the real code and judged by an independent reference model"
 # id -> (category, engine, technique, text, note)
 CHECKS = {
+ "C02": ("exploration", "E1+E2", E1 + "; retry branches: explicit-state exploration of every scripted curve-answer sequence (environment answers) up to length 4",
+   "three real curves x seeds x all 259 paths of length <=3 over boundary indices: every node (private key, chain code, public key, fingerprint) against a SLIP-0010 reference written from the specification over independent affine math/big arithmetic, the prefix/extension law, undefined derivations; all 90 scripted curve-answer sequences (valid / ErrInvalidKey / wrapped / permanent) with the input of every retry compared to the specification's chain; a toy curve rejecting 3/4 of all candidates over 256 seeds x 21 paths so that hash-driven retries actually occur (histogram in evidence)",
+   "bounded seeds/paths; HMAC/SHA/RIPEMD from the standard libraries are trusted; the reference is validated on SLIP-0010 vector 1 for all three curves"),
+ "C04": ("exploration", "E1", E1,
+   "all byte strings of length <=2 and length 3 over 48 bytes (thorough: all 16.8M 3-byte strings), all strings of <=6 (thorough 7) runes over a 12-rune alphabet including DEL, 0x80 and U+212A, checksum-valid strings for every data length 0..84 x every last symbol and all symbol sequences of length <=3, ~200k deviations (every byte substitution, deletion, insertion, case flip, multi-byte rune, case-flip+substitution pairs) from 13 valid base strings, the 89/90/91 length boundary; oracle = transcription of the BIP-173 reference incl. strict 5->8 regrouping; also checks panics, SyntaxError.Offset inside the input and no result alongside an error",
+   "bounded deviation depth (<=2 from a valid string); the BIP-173 reference transcription is validated against BIP-173's vector lists at start-up"),
+ "C05": ("exploration", "E1", E1,
+   "the complete 84x52 product of hrp length 0..83 and data length 0..51 with several fillings, every single byte and selected runes as hrp character, all case placements, every data byte value at every 8->5 residue; oracle = BIP-173 reference; Decode(Encode) checked on every success",
+   "contents per (length,length) cell are representative fillings, not all strings"),
+ "C08": ("exploration", "E1", E1,
+   "per curve all pairs of 18 private scalars x ~22 shifts chosen to hit shift=0, shift=k, shift=n-k, shift>=n and neighbours, through PrivateKey.Shift and PublicKey.Shift (both-invalid or matching results, no panic, equal to the reference), and 6 extended parents x 128 (thorough 512) non-hardened indices through both derivation sides incl. chain code and fingerprint",
+   "bounded scalar/shift alphabets; reference arithmetic ref/wei"),
+ "C16": ("model_checking", "E5", "explicit-state enumeration of the checksum's linear syndrome model (all single and pair error syndromes inside the 89-symbol window, taken from the real polymod) + conformance replay of every weight-1/2 (thorough: weight-3) pattern on the real polymod and through the real Decode",
+   "decides the <=4-error claim for every string length up to 90 at the level of syndromes: no zero single, all 2759 singles distinct, no pair equal to a single, all 3,763,276 pair syndromes distinct; the model is bound to the code by replaying additivity for every weight-2 pattern on three base vectors (thorough: every weight-3 pattern) and every weight<=2 (short words <=3, thorough <=4) substitution incl. same-kind hrp substitutions through the real Decode; a model collision is only reported after it is realised as an accepted corrupted string",
+   "GF(2)-linearity of the polymod beyond the replayed weights for long strings; window fixed at 89 symbols (90 would be a false alarm, see DESIGN)"),
+ "C17": ("exploration", "E1", E1,
+   "both copies of the curve (the exported package and the internal one reached through elliptic.Secp256k1()): all 3600 ordered pairs of a 60-point set containing O, +-jG, +-(n+-1)/2 G for Add, all for Double, 60 scalar byte strings x 6 base points for ScalarMult/ScalarBaseMult (empty, zero, >=n, 33-byte, zero-padded), IsOnCurve for x=0..2000 with both roots and neighbours; oracle = affine math/big group law with identity (0,0)",
+   "bounded point/scalar sets chosen to contain every special case of Jacobian arithmetic; ScalarMult with the identity as base point excluded"),
+ "C19": ("exploration", "E1", E1,
+   "11 hrps x every version byte 0..255 x every payload length that fits x 2 fillings through ParseBech32 (accept iff known prefix, known version, exact length; re-encoding equals the lower-cased input), invalid Bech32 spellings, round trip of the 3 address kinds x 4 prefixes x 64 hashes, migration: 300 addresses, every single-tryte substitution, non-tryte characters, length/prefix/suffix changes: accepted => canonical",
+   "bounded payload contents; BIP-173 reference builds the inputs"),
  "C10": ("exploration", "E1", E1,
    "all strings of length <=6 (thorough <=7) over a 10-symbol alphabet that contains every shortcut visible in the parser (digits incl. 0/8/9, m, /, both hardened markers, an out-of-alphabet byte), complete component product around 2^31/2^32/2^64, and the String/Parse round trip on all paths of length <=3 over boundary indices; oracle = hand-written grammar of the property",
    "bounded alphabet/length; every byte outside the alphabet is assumed to behave like the representative 'x'"),
@@ -39,7 +60,9 @@ m = {
            "baseline_off_cmd": "cd /repo && GOFLAGS=-mod=mod go test -vet=off -count=1 -timeout 25m ./... && cd pkg/curl/asm && GOFLAGS=-mod=mod go test -vet=off -count=1 ./...",
            "source_commits": ["bb9477e"], "add_only": True},
  "engines": [
-   {"name": "E1", "path": "harness/checks", "serves_properties": [p for p in ORDER if CHECKS[p][1] == "E1"], "kind_free_text": "deviation-bounded exhaustive input enumeration against reference models"},
+   {"name": "E1", "path": "harness/checks", "serves_properties": [p for p in ORDER if "E1" in CHECKS[p][1]], "kind_free_text": "deviation-bounded exhaustive input enumeration against reference models (harness/ref)"},
+   {"name": "E2", "path": "harness/checks", "serves_properties": [p for p in ORDER if "E2" in CHECKS[p][1]], "kind_free_text": "explicit-state search over operation / environment-answer sequences of the real object against a reference model"},
+   {"name": "E5", "path": "harness/checks/c16.go", "serves_properties": [p for p in ORDER if "E5" in CHECKS[p][1]], "kind_free_text": "linear syndrome model enumerated exhaustively + conformance replay against the real polymod and Decode"},
  ],
  "checks": checks,
  "not_applicable": na,
